@@ -157,6 +157,7 @@ def run(cfg):
     for cls in ('ace_time::BasicZoneProcessor', 'ace_time::ExtendedZoneProcessor'):
         flag_rules(R, lib, cls)
     python_rules(cfg, R)
+    abbrev_buffer_rule(R, lib)
     return R
 
 
@@ -714,6 +715,73 @@ def key_value_rule(R, lib, cls, f, isf, key):
 
 # -- R5: Python cache key -------------------------------------------------------------------------------
 
+def abbrev_buffer_rule(R, lib):
+    """Transition::abbrev lives in a pooled slot that init() does not clear: what createAbbreviation() leaves in it must be
+    determined by this call alone.  Every bounded copy into the destination is followed, in the same block, by a NUL
+    written at the copied length (memcpy / a prefix strncpy), or is a strncpy over the whole buffer (which pads with NULs)
+    with the last byte forced to NUL."""
+    R.rule('R6', 'createAbbreviation terminates the destination at the copied length on every branch', floor=3)
+    fs = lib.fns('ace_time::ExtendedZoneProcessor::createAbbreviation')
+    if not fs:
+        raise AnalysisError('anchor vanished: ExtendedZoneProcessor::createAbbreviation')
+    f = fs[0]
+    dest, size = f.params[0][0], f.params[1][0]
+
+    def unc(e):
+        while e.k in ('cast', 'ptrcast'):
+            e = e.a[-1]
+        return e
+
+    def plain(e):
+        e = unc(e)
+        if e.k == 'bin':
+            return '(%s%s%s)' % (plain(e.a[1]), e.a[0], plain(e.a[2]))
+        if e.k == 'var':
+            return e.a[0]
+        if e.k == 'const':
+            return str(e.a[0])
+        return show(e).replace(' ', '')
+
+    def blocks(stmts):
+        yield stmts
+        for s in stmts:
+            if s.k == 'if':
+                yield from blocks(s.a[1])
+                yield from blocks(s.a[2])
+            elif s.k == 'block':
+                yield from blocks(s.a[0])
+    n = 0
+    for blk in blocks(f.body):
+        for i, s in enumerate(blk):
+            if s.k != 'expr' or s.a[0].k != 'call':
+                continue
+            e = s.a[0]
+            name = e.a[0].split('::')[-1]
+            if name not in ('memcpy', 'strncpy', 'strcpy') or not e.a[2] or path_of(unc(e.a[2][0])) != dest:
+                continue
+            n += 1
+            c = '%s:%s@%s' % (f.name, name, (s.loc or '').split(':')[-1])
+            cc = '%s:%s(%s)' % (f.name, name, ','.join(plain(a) for a in e.a[2][1:]))
+            R.instance('R6', cc, s.loc)
+            if name == 'strcpy':
+                R.violation('R6', cc, s.loc, 'unbounded strcpy into the abbreviation buffer')
+                continue
+            L = plain(e.a[2][2])
+            terms = []
+            for t in blk[i + 1:]:
+                if t.k == 'assign' and t.a[0].k == 'index' and path_of(unc(t.a[0].a[0])) == dest:
+                    v = unc(t.a[1])
+                    if v.k == 'const' and v.a[0] == 0:
+                        terms.append(plain(t.a[0].a[1]))
+            whole = (size, '(%s-1)' % size)
+            ok = L in terms or (name == 'strncpy' and L in whole and '(%s-1)' % size in terms)
+            if not ok:
+                R.violation('R6', cc, s.loc, 'the copy of length %s is not followed by %s[%s] = 0 (terminators written: %s): the bytes after the copied part '
+                            'are whatever the pooled slot held before, so the abbreviation depends on the previous zone or year' % (L, dest, L, terms or 'none'))
+    if n < 3:
+        raise AnalysisError('%s: only %d bounded copies into the destination found (anchor moved)' % (f.loc, n))
+
+
 def _self_attr(n):
     return n.attr if isinstance(n, ast.Attribute) and isinstance(n.value, ast.Name) and n.value.id == 'self' else None
 
@@ -856,6 +924,10 @@ SELFTEST = [
          find='      mYear = year;\n      mNumMatches = 0; // clear cache', replace='      mYear = year + 1;\n      mNumMatches = 0; // clear cache', rule='R4-keyval'),
     dict(id='key-local-renamed-silent', file='src/ace_time/BasicZoneProcessor.h', regex=True,
          find=r'(bool init\(const LocalDate& ld\) const \{.*?      mIsFilled = true;)', replace=lambda m: m.group(1).replace('yearTiny', 'yt').replace('ld.yt()', 'ld.yearTiny()'), expect='silent'),
+    dict(id='abbrev-head-not-terminated', file='src/ace_time/ExtendedZoneProcessor.h',
+         find='            memcpy(dest, format, headLength);\n            dest[headLength] = \'\\0\';', replace='            strncpy(dest, format, headLength);\n            dest[destSize - 1] = \'\\0\';', rule='R6'),
+    dict(id='abbrev-tail-terminator-dropped', file='src/ace_time/ExtendedZoneProcessor.h',
+         find='            memcpy(dest, slashPos+1, tailLength);\n            dest[tailLength] = \'\\0\';', replace='            memcpy(dest, slashPos+1, tailLength);', rule='R6'),
     dict(id='python-transitions-not-reset', file='tools/zonedb/zone_specifier.py', find='        self.matches = []\n        self.transitions = []\n', replace='        self.matches = []\n', rule='R5-reset', construct='transitions'),
     dict(id='python-statistics-not-reset', file='tools/zonedb/zone_specifier.py', find='        self.max_transition_buffer_size = 0\n        self.matches = []', replace='        self.matches = []', rule='R5-reset'),
     dict(id='python-reset-order-silent', file='tools/zonedb/zone_specifier.py',
